@@ -676,6 +676,62 @@ def loaded_vs_built(ctx, seed, nrep):
                 return
 
 
+def odd_header_loaded_cases(ctx):
+    """Files read from bytes whose header is unusual - SMPTE time division (the division word negative), the largest and
+    smallest resolutions, a longer header chunk - and then edited like any other file: new ticks_per_beat, new type, tempo
+    edits, tracks added.  After every edit each observation equals that of a file freshly built with the same contents."""
+    import struct
+    from ..ref import smf
+    n = 0
+    rng = random.Random(f'{ctx.seed}:odd-headers')
+    note = lambda d, k: ('ch', d, 0x90, [k, 64])       # noqa: E731
+    tempo = lambda d, us: ('meta', d, 0x51, list(us.to_bytes(3, 'big')))   # noqa: E731
+    eot = ('meta', 0, 0x2F, [])
+    for division in (0xE728, 0xE250, 0xE764, 0x8001, 0xFFFF, 0x7FFF, 1, 96):
+        for header_len in (6, 10):
+            for fmt in (0, 1):
+                case = {'kind': 'odd-header', 'division': hex(division), 'header_len': header_len, 'type': fmt}
+                tracks = [[note(0, 60), tempo(10, 250000), note(40, 62), note(40, 64), eot]]
+                if fmt == 1:
+                    tracks.append([note(5, 70), note(80, 72), eot])
+                try:
+                    b, _ = smf.encode_file(fmt, division, tracks, header_len=header_len)
+                    mid = MidiFile(file=io.BytesIO(b))
+                except Exception as exc:
+                    ctx.count('observation == fresh twin')          # a header the reader refuses: nothing to edit
+                    continue
+                log = ['loaded']
+                edits = [('none', None), ('ticks_per_beat', 96), ('tempo', None), ('ticks_per_beat', 480), ('add_track', None), ('type', 1),
+                         ('ticks_per_beat', mid.ticks_per_beat), ('msg.time', None)]
+                for what, val in edits:
+                    try:
+                        if what == 'ticks_per_beat':
+                            mid.ticks_per_beat = val
+                        elif what == 'tempo':
+                            for m in mid.tracks[0]:
+                                if m.type == 'set_tempo':
+                                    m.tempo = 750000
+                        elif what == 'add_track':
+                            if mid.type != 0:
+                                mid.add_track().append(Message('note_on', note=1, time=17))
+                        elif what == 'type':
+                            mid.type = val
+                        elif what == 'msg.time':
+                            mid.tracks[0][1].time += 7
+                        log.append(f'edit:{what}={val}')
+                        for obs in ('iter', 'length', 'save', 'play', 'merged'):
+                            a, bb = observe(mid, obs, 3), observe(twin_of(mid), obs, 3)
+                            ctx.check('observation == fresh twin', a == bb, f'{obs}-of-loaded-file-stale-after-{what}', case,
+                                      lambda: {'log': log, 'observation': obs, 'loaded': repr(a)[:140], 'fresh twin': repr(bb)[:140]})
+                    except HarnessAbort:
+                        raise
+                    except Exception as exc:
+                        ctx.fail('observation == fresh twin', f'odd-header:{type(exc).__name__}', case, f'{type(exc).__name__}: {exc}')
+                        break
+                n += 1
+    return n
+
+
 def dressed_file_case(ctx, seed):
     """The same contents in other clothes: a file whose tracks hold immutable messages (mido.frozen), and a file whose
     messages have already been used for something else - encoded, printed, hashed as frozen twins, under the default
@@ -767,6 +823,11 @@ def run(ctx):
             loaded_vs_built(ctx, f'{ctx.seed}:{ctx.shard}:lvb{nrep}', nrep)
             ctx.nontrivial(('lvb', nrep))
             n += 1
+    if ctx.shard == 6 % ctx.nshards:
+        k = odd_header_loaded_cases(ctx)
+        ctx.nontrivial(None, k)
+        ctx.extra('odd_header_loaded_cases', k)
+        n += k
     ctx.count('cases', n)
     ctx.put_sample({'history': ['edit:tracks.append', 'obs:iter', 'edit:msg.tempo=', 'obs:length', 'obs:partial-play',
                                 'edit:track.setitem', 'obs:play'], 'note': 'shape of a generated history'})
@@ -777,5 +838,7 @@ def replay(ctx, case):
         dressed_file_case(ctx, case['seed'])
     elif case['kind'] == 'loaded-vs-built':
         loaded_vs_built(ctx, case['seed'], case['events'])
+    elif case['kind'] == 'odd-header':
+        odd_header_loaded_cases(ctx)
     else:
         history(ctx, case['seed'], case['maxsteps'])
